@@ -94,8 +94,20 @@ class Event(object):
 
 
 class Guard(tuple):
-    """(id, label, kind, cond_term_string)"""
+    """(id, label, kind, cond_string, cond_term)"""
     pass
+
+
+def disjuncts(t):
+    if t is not None and t[0] == 'bin' and t[1] == '||':
+        return disjuncts(t[2]) + disjuncts(t[3])
+    return [t]
+
+
+def conjuncts(t):
+    if t is not None and t[0] == 'bin' and t[1] == '&&':
+        return conjuncts(t[2]) + conjuncts(t[3])
+    return [t]
 
 
 def is_prefix(a, b):
@@ -182,7 +194,7 @@ class Evaluator(object):
                     val = self.eval(s['init'], env, guards, fn, chain)
                     guards = guards + self.implied_guards(s['init'], env)
                 if s.get('els') is not None:
-                    self.eval_block(s['els'], dict(env), guards + [Guard((s['sp'], 'let-else', 'letelse', ''))], fn, chain)
+                    self.eval_block(s['els'], dict(env), guards + [Guard((s['sp'], 'let-else', 'letelse', '', None))], fn, chain)
                 self.bind_pat(s['pat'], val, env)
             elif sk in ('Semi', 'ExprStmt'):
                 if H.is_log(s['e']):
@@ -199,17 +211,19 @@ class Evaluator(object):
         out = []
         k = e.get('k')
         if k == 'If':
-            ct = self.cond_str(e['cond'], env)
+            ctt = self.cond_term(e['cond'], env)
+            ct = show(ctt)
             if e['then'].get('ty') == '!' or self.block_diverges(e['then']):
-                out.append(Guard((e['sp'], 'else', 'if', ct)))
+                out.append(Guard((e['sp'], 'else', 'if', ct, ctt)))
             elif e.get('else') is not None and (e['else'].get('ty') == '!' or self.block_diverges(e['else'])):
-                out.append(Guard((e['sp'], 'then', 'if', ct)))
+                out.append(Guard((e['sp'], 'then', 'if', ct, ctt)))
         elif k == 'Match' and e.get('src') == 'Normal':
             live = [i for i, a in enumerate(e['arms']) if not (a['body'].get('ty') == '!' or self.block_diverges(a['body']))]
             if len(live) < len(e['arms']):
-                st = self.cond_str(e['scrut'], env)
-                pats = ' | '.join(H.pat_term(e['arms'][i]['pat']) for i in live)
-                out.append(Guard((e['sp'], 'arms:' + ','.join(map(str, live)), 'match', st + ' ~ ' + pats)))
+                stt = self.cond_term(e['scrut'], env)
+                st = show(stt)
+                pats = ' | '.join(H.pat_term(e['arms'][i]['pat'], True) for i in live)
+                out.append(Guard((e['sp'], 'arms:' + ','.join(map(str, live)), 'match', st + ' ~ ' + pats, stt)))
         return out
 
     def block_diverges(self, b):
@@ -225,17 +239,25 @@ class Evaluator(object):
             return False
         return b.get('ty') == '!'
 
-    def cond_str(self, e, env):
-        # side-effect free rendering of a condition under env
+    def cond_term(self, e, env):
+        # side-effect free evaluation of a condition under env
         sub = Evaluator(self.fns, inline_depth=0)
-        t = sub.eval(e, dict(env), [], None, [])
-        return show(t)
+        return sub.eval(e, dict(env), [], None, [])
+
+    def cond_str(self, e, env):
+        return show(self.cond_term(e, env))
 
     def eval(self, node, env, guards, fn, chain):
         k = node.get('k')
         # transparent wrappers
         if k == 'AddrOf':
-            return self.eval(node['e'], env, guards, fn, chain)
+            inner = node['e']
+            if node.get('mut') and inner.get('k') == 'Local' and not inner.get('ty', '').startswith('&'):
+                # `&mut local` handed out: the callee may overwrite the value; later reads are opaque
+                v = self.eval(inner, env, guards, fn, chain)
+                env[inner['id']] = ('var', inner['name'], inner['id'])
+                return v
+            return self.eval(inner, env, guards, fn, chain)
         if k == 'Unary' and node.get('op') == 'Deref':
             return self.eval(node['e'], env, guards, fn, chain)
         if k == 'Block':
@@ -273,7 +295,7 @@ class Evaluator(object):
         if k == 'Binary':
             l = self.eval(node['l'], env, guards, fn, chain)
             if node['op'] in ('&&', '||'):
-                g = guards + [Guard((node['sp'], 'rhs' + node['op'], 'shortcircuit', show(l)))]
+                g = guards + [Guard((node['sp'], 'rhs' + node['op'], 'shortcircuit', show(l), l))]
                 r = self.eval(node['r'], env, g, fn, chain)
             else:
                 r = self.eval(node['r'], env, guards, fn, chain)
@@ -309,7 +331,7 @@ class Evaluator(object):
                 else:
                     self.bind_pat(p, ('var', '$c%d' % i, -1), cenv)
                     pnames.append(('$c%d' % i, -1))
-            g = guards + [Guard((node['sp'], 'closure', 'closure', node['def']))]
+            g = guards + [Guard((node['sp'], 'closure', 'closure', node['def'], None))]
             body = self.eval(node['body'], cenv, g, fn, chain)
             return ('closure', node['def'], tuple(pnames), body)
         if k == 'Index':
@@ -344,7 +366,7 @@ class Evaluator(object):
         if k == 'If':
             c = self.eval(node['cond'], env, guards, fn, chain)
             cs = show(c)
-            gt = guards + [Guard((node['sp'], 'then', 'if', cs))]
+            gt = guards + [Guard((node['sp'], 'then', 'if', cs, c))]
             # `if let` bindings
             tenv = dict(env)
             if node['cond'].get('k') == 'LetExpr':
@@ -352,14 +374,19 @@ class Evaluator(object):
             tt = self.eval(node['then'], tenv, gt, fn, chain)
             s = 'if %s {%s}' % (cs, show(tt))
             if node.get('else') is not None:
-                ge = guards + [Guard((node['sp'], 'else', 'if', cs))]
+                ge = guards + [Guard((node['sp'], 'else', 'if', cs, c))]
                 et = self.eval(node['else'], dict(env), ge, fn, chain)
                 s += ' else {%s}' % show(et)
+                # value of an if/else with one diverging branch is the other branch
+                if self.block_diverges(node['then']) and et[0] != 'ctl':
+                    return et
+                if self.block_diverges(node['else']) and tt[0] != 'ctl':
+                    return tt
             return ('ctl', s)
         if k == 'LetExpr':
             v = self.eval(node['init'], env, guards, fn, chain)
             self.bind_pat(node['pat'], self.payload_of(v, node['pat']), env)
-            return ('ctl', 'let %s = %s' % (H.pat_term(node['pat']), show(v)))
+            return ('ctl', 'let %s = %s' % (H.pat_term(node['pat'], True), show(v)))
         if k == 'Match':
             fl = H.desugar_for(node)
             if fl is not None:
@@ -367,27 +394,33 @@ class Evaluator(object):
                 itt = self.eval(it, env, guards, fn, chain)
                 benv = dict(env)
                 self.bind_pat(pat, ('call', 'iter_item', (itt,), ()), benv)
-                g = guards + [Guard((node['sp'], 'for', 'loop', show(itt)))]
-                self.emit('for', itt, node, guards, fn, chain, extra=H.pat_term(pat))
+                g = guards + [Guard((node['sp'], 'for', 'loop', show(itt), itt))]
+                self.emit('for', itt, node, guards, fn, chain, extra=H.pat_term(pat, True))
                 self.eval(body, benv, g, fn, chain)
-                return ('ctl', 'for %s in %s' % (H.pat_term(pat), show(itt)))
+                return ('ctl', 'for %s in %s' % (H.pat_term(pat, True), show(itt)))
             sc = self.eval(node['scrut'], env, guards, fn, chain)
             scs = show(sc)
             self.emit('match', sc, node, guards, fn, chain)
             parts = []
+            live_vals = []
             for i, a in enumerate(node['arms']):
                 aenv = dict(env)
                 self.bind_pat(a['pat'], self.payload_of(sc, a['pat']), aenv)
-                pt = H.pat_term(a['pat'])
-                g = guards + [Guard((node['sp'], 'arm:%d' % i, 'match', scs + ' ~ ' + pt))]
+                pt = H.pat_term(a['pat'], True)
+                g = guards + [Guard((node['sp'], 'arm:%d' % i, 'match', scs + ' ~ ' + pt, sc))]
                 if a.get('guard') is not None:
                     gt = self.eval(a['guard'], aenv, g, fn, chain)
-                    g = g + [Guard((a['sp'], 'guard', 'armguard', show(gt)))]
+                    g = g + [Guard((a['sp'], 'guard', 'armguard', show(gt), gt))]
                 bt = self.eval(a['body'], aenv, g, fn, chain)
                 parts.append('%s => %s' % (pt, show(bt)))
+                if not self.block_diverges(a['body']):
+                    live_vals.append(bt)
+            # a match whose other arms all diverge evaluates to its one live arm
+            if len(live_vals) == 1 and live_vals[0][0] != 'ctl':
+                return live_vals[0]
             return ('ctl', 'match %s {%s}' % (scs, '; '.join(parts)))
         if k == 'Loop':
-            g = guards + [Guard((node['sp'], 'loop', 'loop', node.get('src', '')))]
+            g = guards + [Guard((node['sp'], 'loop', 'loop', node.get('src', ''), None))]
             self.emit('loop', None, node, guards, fn, chain, extra=node.get('src'))
             self.eval_block(node['body'], env, g, fn, chain)
             return ('ctl', 'loop')
@@ -439,7 +472,7 @@ class Evaluator(object):
         target = self.fns.get(npath)
         if target is not None and 'hir' in target and len(chain) < self.depth_limit and npath not in chain:
             if self.inline_filter is None or self.inline_filter(npath):
-                g = guards + [Guard((node['sp'], 'inl', 'inline', npath))]
+                g = guards + [Guard((node['sp'], 'inl', 'inline', npath, None))]
                 saved = self.tyenv
                 gens = target.get('generics', [])
                 if len(gens) == len(gargs):
